@@ -1379,6 +1379,9 @@ func (x *SX) evalFork(e ast.Expr, st *sxState) []evalOut {
 			}
 		}
 		if o := c.obj(v.Sel); o != nil {
+			if f, ok := o.(*types.Func); ok {
+				return one(TFunc{Fun: f}) // a function of another package used as a value
+			}
 			return one(TVar{o}) // package-qualified identifier
 		}
 	case *ast.StarExpr:
